@@ -34,6 +34,8 @@ impl Function for Tick {
     }
 }
 
+const FLAG_REASON: &str = "the harness flag signalled";
+
 struct Flag {
     polls: Cell<u64>,
     /// polls per site label the library passes to `check`
@@ -51,7 +53,9 @@ impl CancellationFlag for Flag {
         if let Some(k) = self.fail_from {
             if n >= k {
                 self.cancelled.store(true, Ordering::Relaxed);
-                return Err(CancellationError(at));
+                // a reason of its own, not the site label: the error that comes back must be this one
+                let _ = at;
+                return Err(CancellationError(FLAG_REASON));
             }
         }
         if n > self.cap {
@@ -120,7 +124,8 @@ pub fn case(tape: &[u32]) -> CaseOutcome {
             let (res, is_cancel) = match r {
                 Ok(()) => (observe(&graph, &index).map_err(|e| format!("bad graph: {}", e)), false),
                 Err(e) => {
-                    let c = matches!(e, ExecutionError::Cancelled(_));
+                    // the cancellation error itself: the variant, carrying what the flag returned
+                    let c = matches!(&e, ExecutionError::Cancelled(reason) if reason.0 == FLAG_REASON);
                     (Err(format!("{}", e)), c)
                 }
             };
